@@ -225,8 +225,8 @@ def wipe_info_multi(f):
             for s_ in f.succs[b]:
                 if s_ not in body and b != h:
                     return None, "loop has a second exit"
-        if len([st2 for st2 in stores if f.bb_of[st2["id"]] in body]) != 1:
-            return None, "more than one store in a loop"
+        if any(len(f.succs[b]) != 1 for b in body if b != h):
+            return None, "the loop body branches: the store is not executed on every iteration"
         L[h] = (pphi["id"], st["size"], cphi["id"], c0, n0, t["succs"][1])
     if any(f.bb_of[st["id"]] not in set().union(*loops.values()) for st in stores):
         return None, "store outside the loops"
@@ -762,3 +762,6 @@ def run(ctx, rep):
             got.setdefault(o["rule"], []).append(o["construct"])
     for r in ("C17.R1", "C17.R2", "C17.R3", "C17.R4", "C17.R5"):
         rep.fixture(r, "c17_bad_cleanup.c", r in got, "flagged: %s" % sorted(got.get(r, [])))
+    r3 = " ".join(got.get("C17.R3", []))
+    rep.fixture("C17.R3", "c17_bad_cleanup.c:word-wise wipes", "fx_word_zero_bad" in r3 and "fx_word_zero_good" not in r3,
+                "size/8 words + size&3 bytes must be flagged, size>>3 words + size&7 bytes must be accepted; flagged: %s" % sorted(got.get("C17.R3", [])))
